@@ -2,7 +2,11 @@
 package main
 
 import (
+	"context"
 	"fmt"
+	"net/http"
+	"net/http/httptest"
+	"time"
 
 	"verifharness/vh"
 
@@ -14,7 +18,7 @@ type NodeCfg struct {
 	Peers [][]byte `json:"peers"`
 }
 type Op struct {
-	K string `json:"k"` // add rm health owner local ranked howner
+	K string `json:"k"` // add rm health owner local ranked howner alloc
 	N int    `json:"n"`
 	P []byte `json:"p"`
 	H bool   `json:"h,omitempty"`
@@ -42,16 +46,42 @@ func perm(r *vh.Rng, l [][]byte) [][]byte {
 	return o
 }
 
+var safePool = []string{"bng-1", "bng-2", "bng-3", "bng-10", "node-east", "node-west", "olt-7", "a", "ab", "10.0.0.5:8081", "bng-1:8081", "core.example"}
+
 func genCase(r *vh.Rng, maxOps int) Case {
 	np := 1 + r.Intn(6)
+	e2e := r.Chance(1, 3) // end-to-end family: URL-safe distinct names, Allocate through the HTTP handlers
 	var set [][]byte
 	for i := 0; i < np; i++ {
-		set = append(set, genName(r))
+		if e2e {
+			set = append(set, []byte(safePool[r.Intn(len(safePool))]))
+		} else {
+			set = append(set, genName(r))
+		}
+	}
+	if e2e { // distinct names
+		seen := map[string]bool{}
+		var d [][]byte
+		for _, x := range set {
+			if !seen[string(x)] {
+				seen[string(x)] = true
+				d = append(d, x)
+			}
+		}
+		set = d
+		np = len(set)
 	}
 	nn := 1 + r.Intn(3)
+	if e2e && nn > np {
+		nn = np
+	}
 	var c Case
+	ids := perm(r, set)
 	for i := 0; i < nn; i++ {
 		id := set[r.Intn(len(set))]
+		if e2e {
+			id = ids[i]
+		}
 		peers := perm(r, set)
 		if r.Chance(1, 5) { // omit self from configured list: NewPeerPool appends it
 			var p2 [][]byte
@@ -72,6 +102,13 @@ func genCase(r *vh.Rng, maxOps int) Case {
 		if r.Chance(1, 8) {
 			k = r.Bytes(1 + r.Intn(12))
 		}
+		if e2e && r.Chance(1, 3) {
+			sub := []byte(fmt.Sprintf("sub-%d", r.Intn(6)))
+			for m := 0; m < nn; m++ {
+				c.Ops = append(c.Ops, Op{K: "alloc", N: m, P: sub})
+			}
+			continue
+		}
 		switch x := r.Intn(20); {
 		case x < 2:
 			c.Ops = append(c.Ops, Op{K: "add", N: n, P: genName(r)})
@@ -84,6 +121,9 @@ func genCase(r *vh.Rng, maxOps int) Case {
 		case x < 7:
 			p := set[r.Intn(len(set))]
 			h := r.Chance(1, 3)
+			if e2e {
+				p = ids[r.Intn(len(ids))]
+			}
 			if r.Chance(1, 2) { // shared health vector: same change at every node
 				for m := 0; m < nn; m++ {
 					c.Ops = append(c.Ops, Op{K: "health", N: m, P: p, H: h})
@@ -116,15 +156,37 @@ func strs(l [][]byte) []string {
 	return o
 }
 
+// route forwards peer HTTP requests to the in-process handler of the pool whose node id equals the host.
+type route struct {
+	muxes map[string]*http.ServeMux
+}
+
+func (rt *route) RoundTrip(req *http.Request) (*http.Response, error) {
+	m, ok := rt.muxes[req.URL.Host]
+	if !ok {
+		return nil, fmt.Errorf("no such host %q", req.URL.Host)
+	}
+	rec := httptest.NewRecorder()
+	m.ServeHTTP(rec, req)
+	return rec.Result(), nil
+}
+
 func run(c Case) vh.Case {
 	var pools []*pool.PeerPool
 	var cfgs []string
+	rt := &route{muxes: map[string]*http.ServeMux{}}
 	for _, n := range c.Nodes {
 		p, err := pool.NewPeerPool(pool.PeerPoolConfig{NodeID: string(n.ID), Peers: strs(n.Peers), Network: "10.0.0.0/24", Gateway: "10.0.0.1"})
 		if err != nil {
 			panic(err)
 		}
 		pools = append(pools, p)
+		if _, dup := rt.muxes[string(n.ID)]; !dup {
+			mux := http.NewServeMux()
+			p.RegisterHandlers(mux)
+			rt.muxes[string(n.ID)] = mux
+		}
+		p.VerifSetHTTPClient(&http.Client{Transport: rt, Timeout: 2 * time.Second})
 		var ps []string
 		for _, q := range n.Peers {
 			ps = append(ps, vh.Bytes(q))
@@ -157,6 +219,13 @@ func run(c Case) vh.Case {
 				l = append(l, vh.Str(s))
 			}
 			op, out = fmt.Sprintf("Ranked %s %s", n, vh.Bytes(o.P)), "OList "+vh.List(l)
+		case "alloc":
+			resp, err := p.Allocate(context.Background(), string(o.P), nil)
+			if err != nil {
+				op, out = fmt.Sprintf("Alloc %s %s", n, vh.Bytes(o.P)), "OErr"
+			} else {
+				op, out = fmt.Sprintf("Alloc %s %s", n, vh.Bytes(o.P)), "OStr "+vh.Str(resp.NodeID)
+			}
 		case "howner":
 			op, out = fmt.Sprintf("HealthyOwner %s %s", n, vh.Bytes(o.P)), "OStr "+vh.Str(p.VerifHealthyOwner(string(o.P)))
 		}
